@@ -633,6 +633,31 @@ func init() {
 					})
 				}
 			}
+			// size is not an input of the merge: one file of 1.5 MiB (and of exactly 1 MiB + a few bytes) against the same
+			// parameters in several files
+			for si, total := range []int{1<<20 + 64, 3 << 19, 1 << 16} {
+				si, total := si, total
+				w.Case(fmt.Sprintf("large-file/%d", si), func(c *C) {
+					var ps []Param
+					size := 0
+					for i := 0; size < total; i++ {
+						v := strings.Repeat("v", 180)
+						ps = append(ps, Param{fmt.Sprintf("p%06d", i), v})
+						size += 200
+					}
+					ps = append(ps, Param{"zzLast", "%p000000%-%p000001%"})
+					one := &Cfg{Meta: &Meta{Pkg: P("gen")}, Params: ps}
+					want := w.Build([]File{{"c.yaml", one.YAML()}})
+					third := len(ps) / 3
+					parts := []File{{"1.yaml", (&Cfg{Meta: &Meta{Pkg: P("gen")}, Params: ps[:third]}).YAML()}, {"2.yaml", (&Cfg{Params: ps[third : 2*third]}).YAML()}, {"3.yaml", (&Cfg{Params: ps[2*third:]}).YAML()}}
+					got := w.Build(parts)
+					c.Distinct("all", c.ID)
+					c.Distinct("nontrivial", c.ID)
+					if !want.OK() || !got.OK() || want.Output != got.Output {
+						c.Violation("large-file-differs", fmt.Sprintf("%d parameters (%d bytes of YAML) in one file and in three files: accepted %v / %v, outputs %s\n%s", len(ps), len(one.YAML()), want.OK(), got.OK(), FirstDiff(want.Output, got.Output), strings.Join(ErrorLines(want.Out), "\n")), nil, nil)
+					}
+				})
+			}
 			w.Case("algebra/identity", func(c *C) {
 				for i, a := range ins {
 					c.Count("identity_elements")
